@@ -140,14 +140,16 @@ static void explore_states(carquet_reader_t* rd, int rg, int ci, const ref_colda
 /* ---- batch reader ------------------------------------------------------------------ */
 static int g_polarity = -1;    /* learned: value of the bitmap bit for a NULL row */
 typedef struct { ref_buf dump; } sink_t;
-static void check_batches(carquet_reader_t* rd, const rfile_t* f, const ref_coldata* cols, int64_t batch_size, const int* proj, int nproj, bool by_name, const char* fdesc, ref_buf* dump) {
+static void check_batches(carquet_reader_t* rd, const rfile_t* f, const ref_coldata* cols, int64_t batch_size, const int* proj, int nproj, int by_name, const char* fdesc, ref_buf* dump) {     /* by_name: 0 indices, 1 names, 2 both given (indices take precedence; a different number of names) */
     carquet_batch_reader_config_t cfg; carquet_batch_reader_config_init(&cfg); cfg.batch_size = batch_size; cfg.num_threads = 1;
     int32_t idx[RF_MAXC]; const char* names[RF_MAXC]; static const char* DN[] = { "k1x", "k1", "k", "k1xy" };     /* later names are prefixes of earlier ones: a lookup that matches prefixes picks the wrong column */
     for (int i = 0; i < nproj; i++) { idx[i] = proj[i]; names[i] = f->col[proj[i]].name ? f->col[proj[i]].name : DN[proj[i]]; }
-    if (nproj > 0) { if (by_name) { cfg.column_names = names; cfg.num_column_names = nproj; } else { cfg.column_indices = idx; cfg.num_columns = nproj; } }
+    static const char* other[RF_MAXC + 1]; int nother = 0;
+    if (nproj > 0) { if (by_name == 1) { cfg.column_names = names; cfg.num_column_names = nproj; } else { cfg.column_indices = idx; cfg.num_columns = nproj; }
+        if (by_name == 2) { if (nproj > 1) { other[0] = names[nproj - 1]; nother = 1; } else { for (int c = 0; c < f->ncols && nother < RF_MAXC; c++) other[nother++] = f->col[c].name ? f->col[c].name : DN[c]; if (nother == nproj) other[nother++] = DN[0]; } cfg.column_names = other; cfg.num_column_names = nother; } }
     int np = nproj > 0 ? nproj : f->ncols; int pr[RF_MAXC]; for (int i = 0; i < np; i++) pr[i] = nproj > 0 ? proj[i] : i;
     carquet_error_t err = CARQUET_ERROR_INIT; carquet_batch_reader_t* br = carquet_batch_reader_create(rd, &cfg, &err);
-    char ctx[200]; snprintf(ctx, sizeof ctx, "batch_size=%lld proj=%s[%d,%d,%d]/%d", (long long)batch_size, by_name ? "names" : "idx", pr[0], np > 1 ? pr[1] : -1, np > 2 ? pr[2] : -1, np);
+    char ctx[200]; snprintf(ctx, sizeof ctx, "batch_size=%lld proj=%s[%d,%d,%d]/%d", (long long)batch_size, by_name == 1 ? "names" : by_name == 2 ? "idx+names" : "idx", pr[0], np > 1 ? pr[1] : -1, np > 2 ? pr[2] : -1, np);
     if (!dump) mc_desc("%s;batch:%s", fdesc, ctx);
     if (!br) { mc_fail("batch.create-failed", "%s: code %d %s", ctx, err.code, err.message); return; }
     int nrg = f->nrg ? f->nrg : 1; int64_t total = (int64_t)f->N * nrg, done = 0; int64_t vdone[RF_MAXC] = { 0 }; int guard = 0;
@@ -249,7 +251,7 @@ static void c02_file(const rfile_t* f, uint64_t key, bool deep) {
             int perms[15][3] = { {0,-1,-1},{1,-1,-1},{2,-1,-1},{0,1,-1},{1,0,-1},{0,2,-1},{2,0,-1},{1,2,-1},{2,1,-1},{0,1,2},{0,2,1},{1,0,2},{1,2,0},{2,0,1},{2,1,0} };
             for (int64_t bs = 1; bs <= f->N + 1; bs++) { check_batches(rd, f, cols, bs, NULL, 0, false, fdc, NULL); mc_count("transitions", 1);
                 for (int p = 0; p < 15; p++) { int n = perms[p][1] < 0 ? 1 : perms[p][2] < 0 ? 2 : 3; bool fit = true; for (int i = 0; i < n; i++) if (perms[p][i] >= f->ncols) fit = false; if (!fit) continue;
-                    check_batches(rd, f, cols, bs, perms[p], n, false, fdc, NULL); check_batches(rd, f, cols, bs, perms[p], n, true, fdc, NULL); mc_count("transitions", 2); } }
+                    check_batches(rd, f, cols, bs, perms[p], n, 0, fdc, NULL); check_batches(rd, f, cols, bs, perms[p], n, 1, fdc, NULL); check_batches(rd, f, cols, bs, perms[p], n, 2, fdc, NULL); mc_count("transitions", 3); } }
         }
         carquet_reader_close(rd);
     }
@@ -335,6 +337,15 @@ static void enumerate(void) {
               set_pages(&f, 0, N, pa); set_pages(&f, 1, N, pb); f.enc[0] = ENC_PLAIN; f.enc[1] = (mx == 1 && cd) ? ENC_RLE_DICT : ENC_PLAIN; f.dict_offset_present = true;
               c03_file(&f, mc_mix(0xc03, ((uint64_t)mx << 56) | ((uint64_t)o1 << 55) | ((uint64_t)N << 48) | ((uint64_t)pa << 32) | ((uint64_t)pb << 8) | ((uint64_t)cd << 4) | (uint64_t)nrg));
           } }
+    mc_stage("c03.long-page-headers");
+    { static uint8_t lb[400]; memset(lb, 'q', sizeof lb); static ref_stats ls[6]; static const int LN[] = { 10, 100, 118, 125, 200, 390 };
+      for (int li = 0; li < 6; li++) for (int cd = 0; cd < 2; cd++) for (int enc = 0; enc < 2; enc++) {
+          memset(&ls[li], 0, sizeof ls[li]); ls[li].min_value = (ref_bin){ lb, LN[li], true }; ls[li].max_value = (ref_bin){ lb, LN[li], true }; ls[li].has_null_count = true;
+          memset(&f, 0, sizeof f); f.ncols = 2; f.N = 6; f.nrg = 1; f.codec = cd ? CODEC_SNAPPY : CODEC_NONE; f.crc = true; f.dict_offset_present = true;
+          f.col[0].ptype = PT_BYTE_ARRAY; f.col[0].opt = 1; f.mask[0] = 0x12; f.enc[0] = enc ? ENC_RLE_DICT : ENC_PLAIN; f.npages[0] = 2; f.page_levels[0][0] = 4; f.page_levels[0][1] = 2; f.page_stats[0] = &ls[li];
+          f.col[1].ptype = PT_INT64; f.page_stats[1] = &ls[li];
+          c03_file(&f, mc_mix(0xc03d, ((uint64_t)li << 16) | ((uint64_t)cd << 8) | (uint64_t)enc));
+      } }
     mc_stage("c03.files-without-row-groups");
     for (int nc = 1; nc <= 4; nc++) for (int tf = 0; tf < 4; tf++) for (int kv = 0; kv < 2; kv++) {
         memset(&f, 0, sizeof f); f.ncols = nc; f.N = 0; f.nrg = -1; for (int c = 0; c < nc; c++) { f.col[c].ptype = TYPES[(c * 3 + nc) % 8]; f.col[c].tlen = f.col[c].ptype == PT_FLBA ? 5 : 0; f.col[c].opt = c & 1; }
